@@ -50,6 +50,22 @@ class Wild(gen.Layout):
         return self.sep()
 
 
+def bare_words(rng, b):
+    """values written as bare words where MapServer allows it (SYMBOL circle, NAME grid, GROUP roads): the reader has a
+    special rule for the word after SYMBOL / NAME, which must not depend on how the keyword itself is spelled"""
+    for it in list(b.items):
+        if it[0] == "block":
+            bare_words(rng, it[2])
+    props = gen.raw(b.type)["properties"]
+    for k, words in (("symbol", ["circle", "star", "x1", "sq-2"]), ("name", ["grid", "roads", "GRID", "layer1"]), ("group", ["roads", "g1"])):
+        if k in props and b.type != "symbol" and rng.random() < .3 and not any(len(it) > 1 and it[1] == k for it in b.items):
+            node = props[k]
+            if "string" not in json.dumps(node):
+                continue
+            w = rng.choice(words)
+            b.items.insert(rng.randrange(len(b.items) + 1), ("attr", k, w, [(w, "word")], "string"))
+
+
 def gaps_rerender(rng, text):
     """replace every non-empty gap between two tokens of a corpus text by a random separator (gaps inside {…} untouched)"""
     P = trees.parser(False, False)
@@ -83,6 +99,7 @@ def explore(ctx, scale=1.0):
     for i in range(n):
         t = types[i % len(types)] if i < 2 * len(types) else rng.choice(types + ["map", "layer", "class"])
         b = gen.gen_block(rng, t, depth=rng.choice([0, 1, 2, 3]), max_items=rng.choice([3, 6, 9]))
+        bare_words(rng, b)
         pairs.append((gen.render(b), gen.render(b, Wild(rng)), "generated"))
     ctexts = corpus.texts()
     for _, text in (ctexts if ctx.thorough else rng.sample(ctexts, int(80 * scale))):
